@@ -1,6 +1,7 @@
 import ClaripyProofs.Lemmas.Solver.World
 import ClaripyProofs.Lemmas.Solver.L1
 import ClaripyProofs.Lemmas.Solver.CachelessHistory
+import ClaripyProofs.Lemmas.Solver.SolverReach
 /-!
 # C14 — branches of a solver are isolated from each other
 
@@ -63,5 +64,101 @@ theorem C14_step_keeps_discipline {E : Env} {R : Con → Prop} (hR : Reg R E) (h
 theorem C14_query_leaves_foreign_frames {s s' : St} (h : QStep s s') (i : Nat) (hi : i < s.objs.length)
     (hp : s.fe.solver = some i → s.fe.finalized = true) : (objAt s' i).frames = (objAt s i).frames :=
   h.foreign i hi hp
+
+/-! ### the caching class `Solver`: branch isolation for whole histories
+
+The copy `branch` makes of a `Solver` inherits, besides the constraint list and the reference to the Z3 object, every cache of
+its parent: the cached models, the five exhausted tables, the cached satisfiability verdict, the deduplication hashes.  What
+keeps the branches apart is the world invariant `TInvS` of `C11_solver_refines`: each frontend satisfies `SI = BInv ∧ MCInv ∧
+SCInv` for ITS OWN user's constraints, and a Z3 object two frontends refer to is referred to by finalized frontends only. -/
+
+variable {E : Env} {R : Con → Prop} {RE : Exp → Prop}
+
+/-- **Branches of a caching `Solver` are isolated.** On a tree of branched `Solver`s (tracked or not), after ANY interleaving of
+add / satisfiable / eval / batch_eval / min / max / solution / is_true / is_false / simplify / downsize / branch / pickle round
+trips on any of them, every answer of every solver is one the property statement allows for THAT solver's own constraints —
+what it inherited at `branch` plus what was added to it; nothing added to (or cached by) a sibling, parent or child afterwards
+shows. -/
+theorem C14_solver_tree_isolated (H : SolverHyps R RE E) (track : Bool) (hist : List (Nat × Op))
+    (hok : HistOkS R RE 1 hist) :
+    ∀ x ∈ runHist E .Solver (World.init track false) [[]] hist, x.2.2 ≠ .err .giveUp → Judge x.1 x.2.1 x.2.2 :=
+  sol_hist H hist _ _ (tinvS_init R RE E track) hok
+
+/-- the same statement as a frame rule, from ANY world of the tree (`TInvS`): a call `op` on solver `i`
+  (1) leaves the record of every other solver `j` exactly as it was,
+  (2) leaves the constraint list solver `j` is judged by exactly as it was, and
+  (3) whatever is done afterwards (any history `rest` in scope, on any of the solvers), every answer of every solver is allowed
+      for that solver's own constraints, or is an honest give-up. -/
+theorem C14_solver_op_isolated (H : SolverHyps R RE E) (w : World) (Us : List (List Con)) (hw : TInvS R RE E Us w)
+    (i : Nat) (hi : i < w.fes.length) (op : Op) (hop : InScopeS R RE op) :
+    (∀ j, j ≠ i → j < w.fes.length → (step E .Solver w i op).2.fes[j]? = w.fes[j]?) ∧
+    (∀ j, j ≠ i → j < w.fes.length → (usersAll Us i op).getD j [] = Us.getD j []) ∧
+    ∀ rest, HistOkS R RE (nAfter w.fes.length op) rest →
+      ∀ x ∈ runHist E .Solver (step E .Solver w i op).2 (usersAll Us i op) rest, JudgeOrGiveUp E x.1 x.2.1 x.2.2 := by
+  refine ⟨fun j hj hlt => step_other_frontends E .Solver w i op j hj hlt,
+    fun j hj hlt => usersAll_other Us i op j hj (by rw [hw.len]; exact hlt), fun rest hrest => ?_⟩
+  refine sol_hist_giveup H rest _ _ (sol_step H w Us hw i hi op hop).2 ?_
+  rw [sol_step_length H w Us hw i hi op hop]
+  exact hrest
+
+/-- … in particular the very next question to another solver `j` of the tree — whatever `op` did to solver `i`: added
+constraints, filled or invalidated caches, simplified, replaced or dropped its Z3 object, gave up — is answered for the
+constraints `j` had before `op` -/
+theorem C14_solver_sibling_unaffected (H : SolverHyps R RE E) (w : World) (Us : List (List Con))
+    (hw : TInvS R RE E Us w) (i : Nat) (hi : i < w.fes.length) (op : Op) (hop : InScopeS R RE op)
+    (j : Nat) (hj : j < w.fes.length) (hji : j ≠ i) (q : Op) (hq : InScopeS R RE q) :
+    JudgeOrGiveUp E (usersAfter (Us.getD j []) q) q (step E .Solver (step E .Solver w i op).2 j q).1 := by
+  have h1 := sol_step H w Us hw i hi op hop
+  have hl := sol_step_length H w Us hw i hi op hop
+  have hj' : j < (step E .Solver w i op).2.fes.length := by
+    rw [hl]; cases op <;> simp only [nAfter] <;> omega
+  have h2 := (sol_step H _ _ h1.2 j hj' q hq).1
+  rwa [usersAll_other Us i op j hji (by rw [hw.len]; exact hj)] at h2
+
+/-- from a fresh solver: after any history `h1`, any call `op` on solver `i` and any further history `h2`, every answer given
+during `h2` (by `i`, by its branches, by any other solver of the tree) is allowed for the constraints of the solver asked -/
+theorem C14_solver_later_answers (H : SolverHyps R RE E) (track : Bool) (h1 : List (Nat × Op)) (i : Nat) (op : Op)
+    (h2 : List (Nat × Op)) (hok : HistOkS R RE 1 (h1 ++ (i, op) :: h2)) :
+    ∀ x ∈ runHist E .Solver (worldAfter E .Solver (World.init track false) (h1 ++ [(i, op)]))
+        (usersAfterHist [[]] (h1 ++ [(i, op)])) h2, JudgeOrGiveUp E x.1 x.2.1 x.2.2 := by
+  have hok' : HistOkS R RE 1 ((h1 ++ [(i, op)]) ++ h2) := by simpa using hok
+  obtain ⟨hA, hB⟩ := histOkS_append.mp hok'
+  obtain ⟨hw, hlen⟩ := sol_reach H (h1 ++ [(i, op)]) _ _ (tinvS_init R RE E track) hA
+  refine sol_hist_giveup H h2 _ _ hw ?_
+  rw [hlen]
+  exact hB
+
+/-- the heap discipline behind it, for the caching class: a Z3 object two frontends refer to is referred to by finalized
+frontends only (so neither asserts into it: a finalized frontend with pending constraints takes a clone, or a fresh object when
+it tracks) -/
+theorem C14_solver_shared_objects_finalized {Us : List (List Con)} {w : World} (hw : TInvS R RE E Us w)
+    (i j r : Nat) (hi : i < w.fes.length) (hj : j < w.fes.length) (hij : i ≠ j)
+    (hri : (w.fes.getD i {}).solver = some r) (hrj : (w.fes.getD j {}).solver = some r) :
+    (w.fes.getD i {}).finalized = true ∧ (w.fes.getD j {}).finalized = true :=
+  ⟨hw.share i j r hi hj hij hri hrj, hw.share j i r hj hi (Ne.symm hij) hrj hri⟩
+
+/-- every call keeps the discipline and every frontend's own invariant (caches included) -/
+theorem C14_solver_step_keeps_discipline (H : SolverHyps R RE E) (w : World) (Us : List (List Con))
+    (hw : TInvS R RE E Us w) (i : Nat) (hi : i < w.fes.length) (op : Op) (hop : InScopeS R RE op) :
+    TInvS R RE E (usersAll Us i op) (step E .Solver w i op).2 :=
+  (sol_step H w Us hw i hi op hop).2
+
+/-- non-vacuity: the hypotheses hold in the consistent environment of C11 (`cHyps`), for a history that constrains, caches an
+optimum, branches, enumerates in the child, adds on the child, asks the parent again, pickles, … -/
+example : ∀ x ∈ runHist cEnv .Solver (World.init false false) [[]] cHist,
+    x.2.2 ≠ .err .giveUp → Judge x.1 x.2.1 x.2.2 :=
+  C14_solver_tree_isolated cHyps false cHist cHist_ok
+
+/-- non-vacuity of the frame rule: after the first five calls of that history (two solvers alive: 0 and its branch 1), an `add`
+on the branch, then a question to the parent -/
+example : JudgeOrGiveUp cEnv (usersAfter ((usersAfterHist [[]] (cHist.take 5)).getD 0 []) (.eval cExp 10 [])) (.eval cExp 10 [])
+    (step cEnv .Solver (step cEnv .Solver (worldAfter cEnv .Solver (World.init false false) (cHist.take 5)) 1 (.add [cCon])).2 0
+      (.eval cExp 10 [])).1 := by
+  have hok : HistOkS cR cRE 1 (cHist.take 5 ++ cHist.drop 5) := by rw [List.take_append_drop]; exact cHist_ok
+  obtain ⟨hw, hlen⟩ := sol_reach cHyps (cHist.take 5) _ _ (tinvS_init cR cRE cEnv false) (histOkS_append.mp hok).1
+  have h2 : (worldAfter cEnv .Solver (World.init false false) (cHist.take 5)).fes.length = 2 := hlen
+  exact C14_solver_sibling_unaffected cHyps _ _ hw 1 (by omega) (.add [cCon])
+    (by intro c hc; simp only [List.mem_singleton] at hc; subst hc; exact Or.inr (Or.inl rfl)) 0 (by omega) (by omega)
+    (.eval cExp 10 []) ⟨rfl, by omega, by simp⟩
 
 end Claripy.Props.C14
